@@ -2,6 +2,7 @@ package rgmssl
 
 import (
 	"bytes"
+	"crypto/sha1"
 	"crypto/sha256"
 	"encoding/asn1"
 	"errors"
@@ -89,6 +90,7 @@ type Peer struct {
 	Ticket                     []byte // session ticket received in a NewSessionTicket message
 	Resumed                    bool
 	AlertIn                    *[2]byte
+	AfterFlight                string // ECDHE script: "ClientKeyExchange", "alert", "eof", ... = how the client answered the server flight
 }
 
 func NewPeer(rw io.ReadWriter, server bool, seed string, plan *Plan) *Peer {
@@ -349,8 +351,20 @@ type ServerOpts struct {
 	CAs              [][]byte // DER subject names for the CertificateRequest
 	SKESignD         *big.Int // key that signs the ServerKeyExchange (default ID.SignD)
 	SKEInputOverride func(cr, sr, enc []byte) []byte
-	Echo             []byte // application data to send after the handshake
+	Echo             []byte                  // application data to send after the handshake
 	SigMangle        func(der []byte) []byte // rewrites the DER signature of ServerKeyExchange (nil = identity)
+	ECDHE            *ECDHEOpts              // non-nil: select an ECDHE-SM2 suite and send that kind of ServerKeyExchange
+}
+
+// ECDHEOpts scripts a server that selects ECDHE_SM4_*_SM3 (0xe011 / 0xe051). The reference cannot finish that key
+// exchange; the script ends after the client's answer to the server flight, recorded in Peer.AfterFlight.
+type ECDHEOpts struct {
+	Suite      uint16 // default 0xe011
+	CurveID    uint16
+	Point      []byte   // encoded point (default: a valid uncompressed SM2 point)
+	SignD      *big.Int // key that signs the parameters (default: the identity's signing key)
+	RawTail    []byte   // if non-nil, replaces the whole signature part (length prefix included)
+	CorruptSig bool
 }
 
 // RunServer plays the server side. Returns nil when the handshake completed by the reference's standards.
@@ -373,6 +387,12 @@ func (p *Peer) RunServer(o ServerOpts) error {
 		return errors.New("short ClientHello suites")
 	}
 	p.Suite = o.Suite
+	if o.ECDHE != nil {
+		p.Suite = o.ECDHE.Suite
+		if p.Suite == 0 {
+			p.Suite = 0xe011
+		}
+	}
 	if p.Suite == 0 {
 		for i := 0; i+1 < nl; i += 2 {
 			s := uint16(rest[2+i])<<8 | uint16(rest[3+i])
@@ -404,7 +424,29 @@ func (p *Peer) RunServer(o ServerOpts) error {
 		in = o.SKEInputOverride(p.ClientRandom, p.ServerRandom, o.ID.EncCert)
 	}
 	var ske []byte
-	if signD != nil {
+	if e := o.ECDHE; e != nil {
+		// ECParameters(named_curve, id) || point || signature over SHA-1(client_random || server_random || params)
+		pt := e.Point
+		if pt == nil {
+			g := rsm2.Std.BaseMul(big.NewInt(0x1234567))
+			pt = append(append([]byte{4}, rsm2.Pad32(g.X)...), rsm2.Pad32(g.Y)...)
+		}
+		params := append([]byte{3, byte(e.CurveID >> 8), byte(e.CurveID), byte(len(pt))}, pt...)
+		d := e.SignD
+		if d == nil {
+			d = o.ID.SignD
+		}
+		h := sha1.Sum(append(append(append([]byte{}, p.ClientRandom...), p.ServerRandom...), params...))
+		sig := sm2SigDER(d, rsm2.Std.BaseMul(d), h[:], p.sm2Nonce())
+		if e.CorruptSig {
+			sig[len(sig)-2] ^= 0x20
+		}
+		tail := append([]byte{byte(len(sig) >> 8), byte(len(sig))}, sig...)
+		if e.RawTail != nil {
+			tail = e.RawTail
+		}
+		ske = hsMsg(HSServerKeyEx, append(params, tail...))
+	} else if signD != nil {
 		sig := sm2SigDER(signD, rsm2.Std.BaseMul(signD), in, p.sm2Nonce())
 		if o.SigMangle != nil {
 			sig = o.SigMangle(sig)
@@ -432,6 +474,31 @@ func (p *Peer) RunServer(o ServerOpts) error {
 		return err
 	}
 	typ, body, err := p.readHS()
+	if o.ECDHE != nil {
+		// the reference does not implement the ECDHE-SM2 exchange: record how the client answered and stop
+		switch {
+		case err == nil && typ == HSCertificate:
+			if t2, _, e2 := p.readHS(); e2 == nil && t2 == HSClientKeyEx {
+				p.AfterFlight = "ClientKeyExchange"
+			} else {
+				p.AfterFlight = "Certificate"
+			}
+		case err == nil && typ == HSClientKeyEx:
+			p.AfterFlight = "ClientKeyExchange"
+		case err == nil:
+			p.AfterFlight = fmt.Sprintf("handshake message %d", typ)
+		default:
+			if _, isAlert := err.(ErrAlert); isAlert {
+				p.AfterFlight = "alert"
+			} else {
+				p.AfterFlight = "eof"
+			}
+		}
+		if p.closer != nil {
+			p.closer.Close()
+		}
+		return errors.New("scripted ECDHE server: stops after the client's answer (" + p.AfterFlight + ")")
+	}
 	if err != nil {
 		return err
 	}
@@ -517,7 +584,7 @@ type ClientOpts struct {
 	ForceVersion    bool // use VersionOverride even when it is 0
 	SessionTicket   []byte
 	SessionID       []byte
-	ResumeMaster    []byte // expected master when the server resumes
+	ResumeMaster    []byte                  // expected master when the server resumes
 	SigMangle       func(der []byte) []byte // rewrites the DER signature of CertificateVerify (nil = identity)
 }
 
